@@ -50,8 +50,8 @@ impl Scenario for MemSim {
     }
     fn budget(&self, target: &str, tier: Tier) -> u64 {
         match (target, tier) {
-            ("C17", Tier::Quick) => 200_000,
-            ("C17", Tier::Thorough) => 12_000_000,
+            ("C17", Tier::Quick) => 2_000_000,
+            ("C17", Tier::Thorough) => 40_000_000,
             _ => 0,
         }
     }
